@@ -18,6 +18,9 @@ func c06Section(f func() string) (out []int64) {
 }
 
 func c06Impl(in []int64) []int64 {
+	if len(in) > 0 && in[0] == -6 {
+		return wideImpl(in)
+	}
 	tc, ok := decodeTrieCase(in, true)
 	if !ok {
 		return []int64{BADCASE}
@@ -61,6 +64,7 @@ func c06Try(t *T, family string, tc *trieCase) {
 }
 
 func c06Gen(c *Ctx) {
+	wideGen(c, -6) // very wide / very large tries, judged by the closed form of Run/C106.v
 	// 1. exhaustive: hand-written sets over {a,b,c} x all texts up to length L, replacement "*" / mask '*' and a
 	//    second replacement drawn per case
 	L := c.N(6, 8)
@@ -229,9 +233,15 @@ func c06Gen(c *Ctx) {
 }
 
 func init() {
-	Register(&Prop{ID: "C06", Num: 6, SpecMode: "rel", Gen: c06Gen, Impl: c06Impl,
+	Register(&Prop{ID: "C06", Num: 6, NumOf: wideNum(6), SpecMode: "rel", Gen: c06Gen, Impl: c06Impl,
 		Shrink:   trieShrink(true),
-		Describe: func(in []int64) string { tc, _ := decodeTrieCase(in, true); return tc.describe(true) },
+		Describe: func(in []int64) string {
+			if len(in) > 3 && (in[0] == -5 || in[0] == -6) {
+				return fmt.Sprintf("wide trie: all %d-rune patterns over the %d runes from U+%X; text runes, replacement, mask: %v", in[3], in[2], in[1], in[4:])
+			}
+			tc, _ := decodeTrieCase(in, true)
+			return tc.describe(true)
+		},
 		Rule: "pattern sets as for C05 (shared prefixes, nesting, duplicates, empty pattern; {a,b,c}, 2-/3-/4-byte runes, raw bytes, truncated sequences); all texts up to length 6 over {a,b,c} for 25 hand-written sets, all texts up to 3 units for the multi-byte sets, " +
 			"the late-long-occurrence family (a long pattern over several earlier disjoint short ones, chains of merges), random longer texts; replacements: empty, '*', pieces of the text, patterns (ambiguous parses); masks: ASCII, 2-/3-/4-byte, U+FFFD, surrogate, negative, > MaxRune. " +
 			"Non-trivial: the trie ends with BuildFailureLinks and some pattern occurs in the text"})
